@@ -158,7 +158,10 @@ pub fn verify_readback(cfg: &BuilderConfig, b: &BuiltPkg, o: &mut Outcome) -> Re
                 expect_eq!(o, "file-owner", what("group"), e.ownership.group.clone(), g.clone());
             }
             expect_eq!(o, "file-flags", what("flags"), e.flags.bits(), f.expected_flag_bits());
-            if let Some(c) = &f.caps {
+            if let Some(c) = &crate::gen::builder::effective_caps(f) {
+                if c.starts_with(char::is_whitespace) || c.ends_with(char::is_whitespace) {
+                    o.label("caps-with-outer-whitespace");
+                }
                 expect_eq!(o, "file-caps", what("caps"), e.caps.clone(), Some(c.clone()));
             }
             if let Some(t) = &f.symlink {
@@ -260,7 +263,7 @@ impl Property for C06 {
     fn phases(&self, tier: Tier) -> Vec<Phase<C06Case>> {
         vec![Phase::Random {
             name: "configurations",
-            cases: tier.pick(4_000, 300_000),
+            cases: tier.pick(10_000, 300_000),
             strat: Arc::new(|| {
                 config_any_reuse(CfgParams { max_files: 8, sizes: size_small(), comp: comp_mixed(), sign_prob: 0.15, file_kinds: true, force_large_prob: 0.0, rich_meta: true })
                     .prop_map(|mut c| {
